@@ -81,6 +81,55 @@ pub fn corpus(thorough: bool) -> Vec<Vec<u8>> {
             out.push(b);
         }
     }
+    // maps with two numeric keys of every representation, written by the reference writer in both key orders
+    {
+        use vcore::bigi::BigI;
+        use vcore::refcodec::w_term;
+        use vcore::refval::RefVal;
+        let mut nums: Vec<RefVal> = vec![];
+        for i in [-2i64, -1, 0, 1, 2, 1 << 53, (1 << 53) + 1, i64::MAX, i64::MIN] { nums.push(RefVal::int(i)); }
+        for f in [-2.0f64, -1.5, -1.0, -0.5, -0.0, 0.0, 0.5, 1.0, 1.5, 2.0, 9007199254740992.0, 9223372036854775808.0, 18446744073709551616.0, -18446744073709551616.0] { nums.push(RefVal::float(f)); }
+        nums.push(RefVal::Int(BigI::from_u64_shl(1, 63)));
+        nums.push(RefVal::Int(BigI::from_u64_shl(1, 64)));
+        nums.push(RefVal::Int(BigI::from_u64_shl(1, 64).neg()));
+        for a in &nums {
+            for b in &nums {
+                let mut m = vec![131u8, 116, 0, 0, 0, 2];
+                w_term(&mut m, a); m.extend_from_slice(&[97, 1]);
+                w_term(&mut m, b); m.extend_from_slice(&[97, 2]);
+                out.push(m);
+            }
+        }
+    }
+    // funs whose OldIndex / OldUniq use every integer encoding a peer may choose
+    {
+        use vcore::bigi::BigI;
+        use vcore::refcodec::{IntStyle, w_int};
+        let mut ints: Vec<Vec<u8>> = vec![];
+        for v in [0u64, 255, 256, (1 << 31) - 1, 1 << 31, u32::MAX as u64] {
+            for st in [IntStyle::Minimal, IntStyle::Int32, IntStyle::SmallBig, IntStyle::SmallBigPad(2), IntStyle::LargeBig] {
+                let mut b = vec![];
+                if w_int(&mut b, &BigI::from_u64(v), st) && !ints.contains(&b) { ints.push(b); }
+            }
+        }
+        for oi in &ints {
+            for ou in &ints {
+                let mut inner = vec![1u8];
+                inner.extend_from_slice(&[7u8; 16]);
+                inner.extend_from_slice(&3u32.to_be_bytes());
+                inner.extend_from_slice(&1u32.to_be_bytes());
+                inner.extend_from_slice(&[119, 1, b'm']);
+                inner.extend_from_slice(oi);
+                inner.extend_from_slice(ou);
+                inner.extend_from_slice(&[88, 119, 3, b'n', b'@', b'h', 0, 0, 0, 1, 0, 0, 0, 2, 0, 0, 0, 3]);
+                inner.extend_from_slice(&[97, 9]);
+                let mut b = vec![131u8, 112];
+                b.extend_from_slice(&((inner.len() + 4) as u32).to_be_bytes());
+                b.extend_from_slice(&inner);
+                out.push(b);
+            }
+        }
+    }
     out
 }
 
